@@ -703,3 +703,155 @@ def c14(tier, replay_file=None):
     except ToolError as e:
         res.tool_errors.append(str(e))
     return res.finish()
+
+
+# ------------------------------------------------------------------ C16
+
+def c16(tier, replay_file=None):
+    prop = "C16"
+    res = Result(prop, tier, "exploration")
+    try:
+        exe = build_harness()
+        wd = workdir("%s-%s" % (prop, "replay" if replay_file else tier))
+        t0 = time.time()
+        cpath, g = generate(wd, "DevGen", {"MaxLen": 2 if (tier == "quick" or replay_file) else 3}, timeout=3600, mem="8g")
+        cases = read_ndjson(cpath)
+        nkinds = parse_tla_value(g.printed("GENERATED")[0])[2]
+        if replay_file:
+            rp = json.load(open(replay_file))
+            if rp.get("engine") == "E3-device-list-e2e":
+                return c16_e2e(res, wd, [rp["case"]], replay_file)
+            cases = cases[:nkinds] + [dict(rp["case"], id=nkinds + 1)]
+            write_ndjson(cpath, cases)
+        log("[tlc] DevGen: %d cases over %d entry kinds, %.1fs" % (len(cases), nkinds, time.time() - t0))
+        rpath = os.path.join(wd, "results.ndjson")
+        run_tmv(exe, ["devlist", cpath], stdout_path=rpath)
+        lines = [l for l in open(rpath) if l.strip()]
+        spath = os.path.join(wd, "singles.ndjson")
+        with open(spath, "w") as f:
+            f.writelines(lines[:nkinds])
+        files, n = split_file(rpath, PROCS, wd, "res")
+        judged, nontriv, bad, kn, _ = judge(res, wd, "DevCheck", files, known_ids(prop), extra_env={"SINGLES": spath})
+        res.drift = sorted(set(res.drift))
+        case_by_id = {c["id"]: c for c in cases}
+        result_by_id = {json.loads(l)["id"]: json.loads(l) for l in lines} if (bad or replay_file) else {}
+        if replay_file:
+            if res.tool_errors:
+                log("TOOL-ERROR: " + res.tool_errors[0])
+                return 2
+            log("  " + json.dumps(result_by_id[nkinds + 1])[:1500])
+            if bad:
+                log("VIOLATION property=C16 replay=%s clause=%s" % (replay_file, ",".join(bad[0][1])))
+                return 1
+            log("replay: C16 holds for this device list with the current tree")
+            return 0
+        report(res, bad, kn, case_by_id, result_by_id, "E3-device-list")
+        if judged != len(cases) and not res.tool_errors:
+            res.tool_errors.append("judged %d of %d cases" % (judged, len(cases)))
+        e2e = c16_e2e(res, wd, select_e2e(cases, tier)) if not res.tool_errors else {}
+        res.coverage = {
+            "evaluations": judged + e2e.get("e2e_cases", 0), "distinct_nontrivial": nontriv,
+            "rule": "every sequence of <= %d device entries over %d entry kinds (keyboards with/without LEDs, gaming mouse with a keyboard-like key map, 'Mouse'-named keyboard, cros_ec, "
+                    "power button, video bus, lid switch, virtual keyboard/mouse, entries without name / sysfs / EV) x 8 exclude-pattern lists, through both real extractors and both real "
+                    "exclusion functions; non-trivial = two or more entries or a non-empty exclude list. End to end: %s" % (2 if tier == "quick" else 3, nkinds, e2e.get("e2e_how", "not run")),
+            "samples": [{"entries": c["entries"], "excludes": c["excludes"], "text_head": c["text"][:160]} for c in (cases[0], cases[len(cases) // 2], cases[-1])],
+            "exhaustive": True,
+        }
+        res.coverage.update(e2e)
+        res.assumptions = ["the finite universe of device names and exclude patterns of DevList.tla, with glob matching given extensionally there",
+                           "which entries are keyboard-like is the tool's own heuristic (compared with DevList!Keyboardish as DRIFT only)"]
+    except ToolError as e:
+        res.tool_errors.append(str(e))
+    return res.finish()
+
+
+def select_e2e(cases, tier):
+    want = 60 if tier == "quick" else 1200
+    # a real system lists every device once: lists that repeat an entry kind (= the same sysfs path) stay with the extractor-level check
+    multi = [c for c in cases if len(c["entries"]) >= 2 and len(set(c["entries"])) == len(c["entries"])]
+    step = max(1, len(multi) // want)
+    return multi[::step][:want]
+
+
+def c16_e2e(res, wd, cases, replay_file=None):
+    """Selection end to end: the real binary (`remap --verbose`) in a mount namespace with a fabricated /proc/bus/input/devices, /sys/devices and /dev/input;
+    which devices it selects on either path is read from its own verbose output (it cannot open the fabricated device nodes, so it stops after selecting)."""
+    import subprocess, shutil, re
+    if not cases:
+        return {}
+    probe = subprocess.run(["unshare", "-m", "true"], stdout=subprocess.PIPE, stderr=subprocess.PIPE)
+    if probe.returncode != 0:
+        res.notes.append("end-to-end selection skipped: cannot create a mount namespace here (%s)" % probe.stderr.decode()[:200])
+        return {"e2e_cases": 0, "e2e_how": "skipped (no mount namespace available)"}
+    t0 = time.time()
+    tdir = os.path.join(HARNESS, "target" + repo_tag(), "realbin")
+    p = subprocess.run(["cargo", "build", "--offline", "--manifest-path", os.path.join(REPO, "Cargo.toml"), "--target-dir", tdir],
+                       stdout=subprocess.PIPE, stderr=subprocess.STDOUT, text=True, env=dict(os.environ, CARGO_NET_OFFLINE="true"))
+    binp = os.path.join(tdir, "debug", "totalmapper")
+    if p.returncode != 0 or not os.path.exists(binp):
+        raise ToolError("building the real binary failed: " + p.stdout[-1500:])
+    rows = []
+    for c in cases:
+        d = os.path.join(wd, "e2e", str(c["id"]))
+        shutil.rmtree(d, ignore_errors=True)
+        os.makedirs(os.path.join(d, "sys"))
+        open(os.path.join(d, "devices"), "w").write(c["text"])
+        # one event node per distinct sysfs path in the text
+        sysfs = []
+        for line in c["text"].splitlines():
+            if line.startswith("S: Sysfs=") and line[9:] not in sysfs:
+                sysfs.append(line[9:])
+        nodes = []
+        for i, sp in enumerate(sysfs):
+            ed = os.path.join(d, "sys", sp.lstrip("/").replace("devices/", "", 1), "event%d" % i)
+            os.makedirs(ed, exist_ok=True)
+            open(os.path.join(ed, "uevent"), "w").write("MAJOR=13\nMINOR=%d\nDEVNAME=input/event%d\n" % (64 + i, i))
+            nodes.append("/dev/input/event%d" % i)
+        exargs = " ".join("--exclude '%s'" % p for p in c["excludes"])
+        setup = ("mount --bind %s/devices /proc/bus/input/devices && mount --bind %s/sys /sys/devices && mount -t tmpfs tmpfs /dev && mkdir /dev/input && touch %s /dev/input/none; "
+                 % (d, d, " ".join(nodes) if nodes else "/dev/input/none"))
+        a = subprocess.run(["unshare", "-m", "sh", "-c", setup + "%s remap --verbose --default-layout caps-q-for-esc --all-keyboards %s" % (binp, exargs)],
+                           stdout=subprocess.PIPE, stderr=subprocess.PIPE, text=True, timeout=60)
+        dv = " ".join("--dev-file %s" % n for n in nodes)
+        b = subprocess.run(["unshare", "-m", "sh", "-c", setup + "%s remap --verbose --default-layout caps-q-for-esc --only-if-keyboard %s %s" % (binp, exargs, dv)],
+                           stdout=subprocess.PIPE, stderr=subprocess.PIPE, text=True, timeout=60) if nodes else None
+        # what the binary says it selected
+        sel_all, in_list = [], False
+        for line in a.stderr.splitlines():
+            if line.startswith("Got the list of keyboards:"):
+                in_list = True
+            elif in_list and line.startswith(" * "):
+                m = re.match(r' \* "(.*?)"( \(excluded\))?$', line)
+                if m and not m.group(2):
+                    sel_all.append(m.group(1))
+            elif in_list:
+                in_list = False
+        n_all = re.search(r"Remapping (\d+) devices", a.stderr)
+        sel_dev, n_dev, panicked = [], None, "panicked" in a.stderr
+        if b is not None:
+            skipped = set(re.findall(r"^Skipping (\S+) ", b.stderr, re.M))
+            sel_dev = [n for n in nodes if n not in skipped]
+            n_dev = re.search(r"Remapping (\d+) devices", b.stderr)
+            panicked = panicked or "panicked" in b.stderr
+        rows.append({"id": c["id"], "entries": c["entries"], "excludes": c["excludes"], "nodes": [{"sysfs": sp, "node": n} for sp, n in zip(sysfs, nodes)],
+                     "sel_all": sel_all, "n_all": int(n_all.group(1)) if n_all else -1,
+                     "sel_dev": sel_dev, "n_dev": int(n_dev.group(1)) if n_dev else -1, "panicked": panicked})
+        shutil.rmtree(d, ignore_errors=True)
+    rp = os.path.join(wd, "e2e_results.ndjson")
+    write_ndjson(rp, rows)
+    log("[record] real binary in a mount namespace on %d device lists (both discovery paths), %.1fs" % (len(rows), time.time() - t0))
+    files, n = split_file(rp, PROCS, wd, "e2e")
+    judged, nontriv, bad, kn, _ = judge(res, wd, "DevSelect", files, known_ids("C16"), extra_env={"SINGLES": os.path.join(wd, "singles.ndjson")})
+    if replay_file:
+        if res.tool_errors:
+            log("TOOL-ERROR: " + res.tool_errors[0])
+            return 2
+        log("  " + json.dumps(rows[0]))
+        if bad:
+            log("VIOLATION property=C16 replay=%s clause=%s" % (replay_file, ",".join(bad[0][1])))
+            return 1
+        log("replay: C16 holds end to end for this device list with the current tree")
+        return 0
+    report(res, bad, kn, {c["id"]: c for c in cases}, {r["id"]: r for r in rows}, "E3-device-list-e2e")
+    return {"e2e_cases": judged, "e2e_how": "the real binary `remap --verbose` under unshare -m with fabricated /proc/bus/input/devices, /sys/devices and /dev/input on %d lists, "
+                                             "--all-keyboards and --dev-file --only-if-keyboard, selection read from its verbose output and judged by DevSelect.tla" % judged}
